@@ -52,6 +52,21 @@ func genCase(t *rapid.T) Case {
 			size = 2<<20 + rapid.Int64Range(100000, 600000).Draw(t, "bigRdbSize")
 		}
 		c.Ops = append(c.Ops, Op{Op: "rdb", N: size})
+		if size > 2<<20 {
+			// the interesting history for a big snapshot: the log grows past the size limit while a slow consumer still replays the
+			// snapshot, and the collector runs
+			if c.MaxSize < 0 {
+				c.MaxSize = 3 * c.LogSize
+			}
+			for i, k := 0, rapid.IntRange(0, 5).Draw(t, "bigAppends"); i < k; i++ {
+				c.Ops = append(c.Ops, Op{Op: "append", N: rapid.Int64Range(1, 3*c.LogSize).Draw(t, "n")})
+			}
+			c.Ops = append(c.Ops, Op{Op: "openSnap", N: rapid.Int64Range(1, 6).Draw(t, "below"), Hold: rapid.IntRange(0, 3).Draw(t, "slowSnap") > 0})
+			for i, k := 0, rapid.IntRange(0, 5).Draw(t, "bigAppends2"); i < k; i++ {
+				c.Ops = append(c.Ops, Op{Op: "append", N: rapid.Int64Range(1, 3*c.LogSize).Draw(t, "n")})
+			}
+			c.Ops = append(c.Ops, Op{Op: "gc"})
+		}
 	} else {
 		c.Ops = append(c.Ops, Op{Op: "aofonly"})
 	}
@@ -139,13 +154,16 @@ func (r *runner) guarded(what string, f func() error) (error, bool) {
 	case err := <-ch:
 		return err, true
 	case <-time.After(20 * time.Second):
-		open := 0
+		open, kind := 0, "log-reader"
 		for _, p := range r.pumps {
 			if p.open {
 				open++
+				if !p.p.Aof && p.held {
+					kind = "snapshot-reader"
+				}
 			}
 		}
-		r.fail("cache-reset-never-returns", fmt.Sprintf("%s has not returned after 20 s (%d readers of the previous contents still open, range [%d,%d], snapshot=%v)", what, open, r.left, r.right, r.rdbOK))
+		r.fail("cache-reset-never-returns:"+kind, fmt.Sprintf("%s has not returned after 20 s (%d readers of the previous contents still open, range [%d,%d], snapshot=%v)", what, open, r.left, r.right, r.rdbOK))
 		r.hung = true
 		return nil, false
 	}
